@@ -134,6 +134,92 @@ EXC_KINDS = (
 )  # fmt: skip
 
 
+# ---------------------------------------------------------------------------- callable shapes and return values
+
+RETURN_VALUES = {
+    "none": lambda: None,
+    "true": lambda: True,
+    "false": lambda: False,
+    "zero": lambda: 0,
+    "one": lambda: 1,
+    "str": lambda: "x",
+    "obj": lambda: object(),
+}
+
+
+class _Holder:
+    def __init__(self, f):
+        self.f = f
+
+    def method(self, *a, **kw):
+        return self.f(*a, **kw)
+
+
+class _CallableInstance:
+    """no __name__ / __qualname__ on the instance"""
+
+    def __init__(self, f):
+        self.f = f
+
+    def __call__(self, *a, **kw):
+        return self.f(*a, **kw)
+
+
+class _CallableSlots:
+    __slots__ = ("f",)
+
+    def __init__(self, f):
+        self.f = f
+
+    def __call__(self, *a, **kw):
+        return self.f(*a, **kw)
+
+
+_NEVER = object()
+
+
+def shape_callable(f, shape):
+    """the same behaviour as f in a different kind of callable object"""
+    import functools
+
+    if shape == "function":
+        return f
+    if shape == "lambda":
+        return lambda *a, **kw: f(*a, **kw)
+    if shape == "closure":
+        g = f
+
+        def inner(*a, **kw):
+            return g(*a, **kw)
+
+        return inner
+    if shape == "bound_method":
+        return _Holder(f).method
+    if shape == "partial":
+        return functools.partial(f)
+    if shape == "partial_bound_method":
+        return functools.partial(_Holder(f).method)
+    if shape == "callable_instance":
+        return _CallableInstance(f)
+    if shape == "callable_instance_named":
+        c = _CallableInstance(f)
+        c.__name__ = "named_instance"
+        c.__qualname__ = "named_instance"
+        return c
+    if shape == "callable_slots":
+        return _CallableSlots(f)
+    if shape == "builtin":
+        # a builtin (C) bound method that calls f(): callable_iterator.__next__ of iter(f, sentinel)
+        return iter(f, _NEVER).__next__
+    raise AssertionError(shape)
+
+
+SHAPES = (
+    "function", "lambda", "closure", "bound_method", "partial", "partial_bound_method", "callable_instance",
+    "callable_instance_named", "callable_slots", "builtin",
+)  # fmt: skip
+
+
 class Probe:
     """records API calls and callback entries/exits of one event loop"""
 
@@ -154,7 +240,9 @@ class Probe:
     def _ctx(self):
         return list(self.stack[-1]) if self.stack else None
 
-    def _wrap(self, cbid, kind, body, fdkey=None):
+    def _wrap(self, cbid, kind, body, fdkey=None, shape="function", ret="none"):
+        retval = RETURN_VALUES[ret]()
+
         def callback(*a, **kw):
             n = self.ncalls.get(cbid, 0)
             self.ncalls[cbid] = n + 1
@@ -176,9 +264,10 @@ class Probe:
                 raise
             finally:
                 self.stack.pop()
-                self.h.append({"e": "exit", "id": cbid, "kind": kind, "t": self.clock(), "raised": raised})
+                self.h.append({"e": "exit", "id": cbid, "kind": kind, "t": self.clock(), "raised": raised, "ret": ret})
+            return retval
 
-        return callback
+        return shape_callable(callback, shape)
 
     def _call(self, op, cbid, fn, *args, **extra):
         t0 = self.clock()
@@ -197,20 +286,20 @@ class Probe:
         return ev, ret
 
     # ---- the six API calls -------------------------------------------------
-    def alarm(self, cbid, seconds, body):
-        ev, ret = self._call("alarm", cbid, self.loop.alarm, seconds, self._wrap(cbid, "alarm", body), sec=seconds)
+    def alarm(self, cbid, seconds, body, shape="function", ret="none"):
+        ev, ret = self._call("alarm", cbid, self.loop.alarm, seconds, self._wrap(cbid, "alarm", body, None, shape, ret), sec=seconds, shape=shape)
         ev["handle_falsy"] = not ret
         self.handles[cbid] = ret
         return ret
 
-    def watch_file(self, cbid, fdkey, fdobj, body):
-        ev, ret = self._call("watch_file", cbid, self.loop.watch_file, fdobj, self._wrap(cbid, "watch", body, fdkey), fd=fdkey)
+    def watch_file(self, cbid, fdkey, fdobj, body, shape="function", ret="none"):
+        ev, ret = self._call("watch_file", cbid, self.loop.watch_file, fdobj, self._wrap(cbid, "watch", body, fdkey, shape, ret), fd=fdkey, shape=shape)
         ev["handle_falsy"] = not ret
         self.handles[cbid] = ret
         return ret
 
-    def enter_idle(self, cbid, body):
-        ev, ret = self._call("enter_idle", cbid, self.loop.enter_idle, self._wrap(cbid, "idle", body))
+    def enter_idle(self, cbid, body, shape="function", ret="none"):
+        ev, ret = self._call("enter_idle", cbid, self.loop.enter_idle, self._wrap(cbid, "idle", body, None, shape, ret), shape=shape)
         ev["handle_falsy"] = not ret
         self.handles[cbid] = ret
         return ret
